@@ -108,6 +108,12 @@ CLAIMED["C03"] = dict(text="Bounded symbolic model checking as four lemmas on th
                   "counts and names (atom order, numbering, names, own coordinates, box line), and completeness of positions under every failure schedule.",
              design="DESIGN.md 4/C03", technique="symbolic execution of the real Python code with z3 (symx): symbolic reals for box/mass/density (QF_NRA), symbolic counts, symbolic failure schedules",
              note="gen_coords is not executed end to end symbolically: the lemmas compose through its real control flow under stubs; finiteness of numbers produced by scipy is assumed; -grid file parsing and .pdb input are outside. " + NOTE_COMMON)
+CLAIMED["C20"] = dict(text="Bounded symbolic exploration of crash points on the real gen_params, gen_coords and gen_seq with real files in a per-path temp dir: the stage at "
+                  "whose boundary a fault is injected (every stage of the three programs, before - and for serialisation also after - the stage; or none), the "
+                  "presence of an output file and the number of existing backups are solver-chosen; the directory listing and all file contents are compared "
+                  "with the pre-state on failure, and the complete file / first free GROMACS backup name / untouched older backups are checked on success.",
+             design="DESIGN.md 4/C20", technique="symbolic execution of the real Python code with z3 (symx): solver-chosen crash point and pre-state (selector-only, exhaustive over stage boundaries)",
+             note="crash = exception at a stage boundary (not process kill); one run per path; the temporary file a failed call leaves registered in vermouth's singleton writer is outside the claim. " + NOTE_COMMON)
 NOT_YET = {}
 def main():
     props = [json.loads(l) for l in open(os.path.join(ROOT, "properties.jsonl"))]
